@@ -8,6 +8,7 @@ Correspondence (exact): both copies of the implementation (`nflows.transforms.ma
 `MixtureOfGaussiansMADE`): `mask` / `degrees` buffers of every `MaskedLinear`, constructor exception kinds, and the
 autograd Jacobian w.r.t. (inputs, context) at all-ones weights against the model's integer path-count matrix."""
 import importlib, itertools, math
+import json
 import torch
 from torch.nn import functional as TF
 from harness.common import leandriver
@@ -484,6 +485,29 @@ def search(ctx):
         try_cfg(cfg)
         if len(ctx.failing) >= 5:
             return
+    # then: the same smallest configurations each in a FRESH interpreter (a defect may live in process-global state — a
+    # module-level cache filled by whatever was built before — and then depends on construction order)
+    import subprocess, sys as _sys
+    fresh = []
+    for c in list(buckets.values())[:12]:
+        fresh.append({k: c[k] for k in ('copy', 'F', 'H', 'blocks', 'm', 'residual', 'random', 'C', 'bn', 'seed')})
+    for (F, m) in ((2, 1), (1, 2), (2, 2), (4, 2), (3, 1), (2, 3)):
+        for blocks in (1, 2):
+            fresh.append(dict(copy='transforms', F=F, H=F * m, blocks=blocks, m=m, residual=False, random=False, C=0, bn=False, seed=0))
+    for cfg in fresh[:24]:
+        extra = dict(act='tanh', train=False, dropout=0.0, wseed=1)
+        try:
+            pr = subprocess.run([_sys.executable, '-W', 'ignore', '-c',
+                                 'import json,sys\nfrom harness.props import c06\nd=json.loads(sys.argv[1])\nprint("R="+json.dumps(c06.oracle_case(d["cfg"], **d["extra"])))',
+                                 json.dumps({'cfg': cfg, 'extra': extra})], capture_output=True, text=True, timeout=120)
+            line = next((l for l in pr.stdout.splitlines() if l.startswith('R=')), None)
+            r = json.loads(line[2:]) if line else None
+        except Exception:
+            r = None
+        if r is not None:
+            _report(ctx, cfg, dict(extra, fresh_process=True), r)
+            if len(ctx.failing) >= 3:
+                return
     # then: the generator, small sizes first
     for F in range(1, 7):
         for H in (1, 2, 3, 5, 8):
